@@ -626,3 +626,10 @@ Definition elem_okb (s : schema) (e : xelem) : bool :=
     && forallb (fun kv => reserved_free (fst kv)) (x_attrs e)
     && forallb (fun kv => kid_okb s ti (fst kv)) (x_kids e)
   end.
+(* premise of lenient_is_filter: the xmi:id of every dropped element is absent, empty or a number (int() of anything
+   else raises inside the lenient branch itself) *)
+Definition dropped_ids_okb (s : schema) (d : xdoc) : bool :=
+  forallb (fun e => match xattr e A_ID with
+                    | Some a => String.eqb a "" || match s2z a with Some _ => true | None => false end
+                    | None => true
+                    end) (filter (unknown s) d).
